@@ -370,14 +370,19 @@ def assemble(unit_name, repo=None):
     u.template = tmpl_rel
     raw = []   # (text, origin) after textual include expansion
 
-    def expand(rel, kind, depth=0):
+    def expand(rel, kind, depth=0, params={}):
         pth = os.path.join(VERIF, rel)
         for k, l in enumerate(open(pth, encoding='utf-8').read().split('\n')):
-            mi = re.match(r'\s*//@include\s+(\S+)', l)
+            for pk, pv in params.items():
+                l = l.replace('$' + pk, pv)
+            mi = re.match(r'\s*//@include\s+(\S+)(.*)$', l)
             if mi:
                 if depth > 5:
                     raise ExtractError('include depth')
-                expand(mi.group(1), 'prelude', depth + 1)
+                sub = {}
+                for a in re.finditer(r'([A-Z_]+)=("([^"]*)"|\S+)', mi.group(2)):
+                    sub[a.group(1)] = a.group(3) if a.group(3) is not None else a.group(2)
+                expand(mi.group(1), 'prelude', depth + 1, sub)
             else:
                 raw.append((l, (kind, rel, k + 1)))
 
